@@ -112,13 +112,14 @@ set_index_harness!(c26_set_index_to, T, O);
 set_index_harness!(c26_set_index_oo, O, O);
 
 macro_rules! array_len_harness {
-    ($name:ident, $dm:expr, $m1:expr) => {
+    ($name:ident, $len:expr, $dm:expr, $m1:expr) => {
         vm_harness! {
             #[kani::unwind(9)]
             fn $name() {
                 let (od, o1) = (OFF_DEST, OFF_R1);
                 let mut t = mk_thread(vec![Instr::ArrayLength(enc($dm, od), enc($m1, o1)), Instr::Stop], vec![], vec![]);
-                let (arr, _e, len) = sym_array(&mut t, 3);
+                let len: usize = $len;
+                let (arr, _e) = fixed_array(&mut t, len, 4);
                 push_frame(&mut t, ValueTag::Int);
                 if $m1 == O { t.value_stack[slot(o1)] = arr; } else { t.value_stack.push(arr); }
                 let mut model = t.value_stack.clone();
@@ -129,8 +130,9 @@ macro_rules! array_len_harness {
         }
     };
 }
-array_len_harness!(c26_len_tt, T, T);
-array_len_harness!(c26_len_oo, O, O);
+array_len_harness!(c26_len0_tt, 0, T, T);
+array_len_harness!(c26_len3_tt, 3, T, T);
+array_len_harness!(c26_len2_oo, 2, O, O);
 
 // pop: concrete length per harness (0, 1, 3), symbolic contents
 macro_rules! array_pop_harness {
@@ -145,8 +147,14 @@ macro_rules! array_pop_harness {
                 if $m1 == O { t.value_stack[slot(o1)] = arr; } else { t.value_stack.push(arr); }
                 let mut model = t.value_stack.clone();
                 let _ = fetch(&mut model, $m1, o1);
-                let exp = if $len == 0 { Exp::Err(EK_OOB) } else { Exp::Val(Value(e[$len - 1], ValueTag::Int)) };
-                check_step(&mut t, model, $dm, od, exp, $len == 0);
+                if $len == 0 {
+                    t.pc.0 = 0;
+                    let cont = t.step();
+                    assert!(!cont && err_code(&t) == EK_OOB, "popping an empty array is an ArrayOutOfBounds runtime error");
+                    kani::cover!(true, "req: error outcome reachable");
+                } else {
+                    check_step(&mut t, model, $dm, od, Exp::Val(Value(e[($len as usize).saturating_sub(1)], ValueTag::Int)), false);
+                }
                 if $len > 0 {
                     let d = &arr_ref(arr).data;
                     assert!(d.len() == $len - 1, "array shrank by one");
